@@ -73,7 +73,7 @@ def drive(tier):
 
         def mk2():
             box["f"] = CBloomFilter(ne_, rate_, 7, 1)
-            return proj(box["f"])
+            return dict(proj(box["f"]), within=bool(box["f"].IsWithinSizeConstraints()))
         if add("bloom.new", tid, 0, {"n": ne_, "rate": str(rate_), "tweak": le(7, 4), "flags": 1}, mk2):
             history(box["f"], tid, 0, 10, pool_for())
     counts = [1, 2, 3, 10, 1000, 20000, 20001, 100000]
@@ -92,7 +92,7 @@ def drive(tier):
 
             def mk():
                 box["f"] = CBloomFilter(ne, rate, tweak, flags)
-                return proj(box["f"])
+                return dict(proj(box["f"]), within=bool(box["f"].IsWithinSizeConstraints()))
             ok = add("bloom.new", tid, 0, {"n": ne, "rate": str(rate), "tweak": le(tweak, 4), "flags": flags}, mk)
             if ok and len(box["f"].vData) <= 400:
                 history(box["f"], tid, 0, 12 if tier == "quick" else 60, pool_for())
@@ -121,7 +121,8 @@ def drive(tier):
             # the object's history starts from an empty filter of its size
             R.add("bloom.arrive", {"bytes": b2l(bytes([len(flt0.vData)]) + bytes(len(flt0.vData)) + struct.pack("<IIB", flt0.nHashFuncs, flt0.nTweak, flt0.nFlags)),
                                    "n": len(flt0.vData)},
-                  {"k": "ret", "data": [0] * len(flt0.vData), "nk": int(flt0.nHashFuncs), "tweak": le(flt0.nTweak, 4), "flags": int(flt0.nFlags)}, tid=tid_, k=0)
+                  {"k": "ret", "data": [0] * len(flt0.vData), "nk": int(flt0.nHashFuncs), "tweak": le(flt0.nTweak, 4), "flags": int(flt0.nFlags),
+                   "within": len(flt0.vData) <= 36000 and flt0.nHashFuncs <= 50}, tid=tid_, k=0)
             for t2, op, inp, out in inter:
                 if t2 == tid_:
                     kk += 1
@@ -148,7 +149,7 @@ def drive(tier):
 
         def arr():
             box["f"] = CBloomFilter.deserialize(raw)
-            return proj(box["f"])
+            return dict(proj(box["f"]), within=bool(box["f"].IsWithinSizeConstraints()))
         ok = add("bloom.arrive", tid, 0, {"bytes": b2l(raw), "n": len(data)}, arr)
         if ok and kfun <= 1000:
             history(box["f"], tid, 0, 8 if tier == "quick" else 40, pool_for())
